@@ -7,6 +7,8 @@ CONSTANTS
   Hist = @@HIST@@
   WalkLen = @@WALKLEN@@
   ProbeKinds = @@PROBES@@
+  Vias = @@VIAS@@
+  EvalOnTemp = "@@EVALTEMP@@"
 VIEW View
 ACTION_CONSTRAINT EmitEdge
 INVARIANTS TypeOK BaseVisibleEverywhere
